@@ -369,3 +369,26 @@ def mut_self_param(text):
     for a, b, r in sorted(edits, reverse=True):
         new = new[:a] + r + new[b:]
     return new, len(edits)
+
+
+def abstract_sender_ctor(text):
+    """R8: every `Box::new(XSender::new(…))` -> `mk_sender()` - the construction of a port sender (closures over
+    model inputs, mailbox senders) is not expressible in Verus; only its identity matters to the contract."""
+    n = 0
+    while True:
+        m = re.search(r"Box::new\(\s*\w*Sender::new\(", text)
+        if not m:
+            break
+        o = text.index("(", m.start())
+        c = match_brace(text, o)
+        text = text[:m.start()] + "mk_sender()" + text[c + 1:]
+        n += 1
+    return text, n
+
+
+def de_async(text):
+    """R8/R15: `pub async fn f` -> `pub fn f` and `.await` dropped: the function is verified as if the awaited
+    future completed at once (the broadcast future itself is an opaque stub)."""
+    t, n = re.subn(r"\basync fn\b", "fn", text)
+    t, k = re.subn(r"\s*\.await\b", "", t)
+    return t, n + k
